@@ -19,7 +19,7 @@ META = {
                    "names that severity. R12.heading: each severity buffer is emitted under the guard `buffer != L` where L is exactly the literal the buffer was "
                    "initialised with (contradiction rule: the code states twice what 'only the heading' means).",
     "assumptions": ["keys of the findings map exist only with non-empty values (C03 R03.perfile)"],
-    "floors": {"R12.count": 4, "R12.category": 3, "R12.severity": 7, "R12.heading": 3},
+    "floors": {"R12.count": 4, "R12.category": 3, "R12.severity": 7, "R12.heading": 3, "R12.written": 1},
 }
 
 SEVERITY = {"UnprotectedSelfdestruct": "High", "DivideBeforeMultiply": "Medium", "UnsafeERC20Operation": "Low", "FloatingPragma": "Low"}
@@ -27,6 +27,12 @@ SEVERITY = {"UnprotectedSelfdestruct": "High", "DivideBeforeMultiply": "Medium",
 
 def run(ctx, crate):
     obs = []
+    # totals and headings are compared with what the report file contains: the file is what this run built and nothing else (one write that replaces the
+    # file: C18's obligations on the report write) — a tail left over from a longer, older report would be counted and headed too
+    from rules import depend
+    obs.append(depend.inherited(ctx, crate, "R12.written", "report::generation::generate_report", "the report file holds exactly the text built by this run "
+                                "(C18's obligations on the single, replacing write)", "C18", lambda o: o.rule in ("R18.write", "R18.inventory") and not o.ok or o.rule == "R18.write",
+                                example="a second run with fewer findings from the same working directory"))
     # ---------------- R12.count
     for cat in ("optimizations", "vulnerabilities"):
         g = R.Gen(crate, cat)
